@@ -187,6 +187,48 @@ def check_dequeue_result(mod, rep, rid):
                                   ('ignores' if not tested else 'does not derive its returned index from'), site='nsync_wait_n/dequeue-result'))
     return n
 
+def check_waitn_sleep(mod, rep, rid):
+    """R3: the sleep of nsync_wait_n happens only while the earliest ready time is in the future, in a loop that re-polls after each wake-up,
+    and only on ready times polled after the registrations"""
+    fn = waitn_body(mod)
+    cfg = cfg_of(fn)
+    loops = cfg.loops()
+    enq = slot_calls(mod, fn, 'enqueue')
+    rdy = slot_calls(mod, fn, 'ready_time')
+    if not enq or not rdy:
+        raise AnalysisBroken('%s: enqueue/ready_time calls of nsync_wait_n not found' % rid)
+    sleeps = [i for i in fn.real_insts() if i.op == 'call' and i.callee in ('nsync_mu_semaphore_p_with_deadline', 'nsync_mu_semaphore_p')]
+    if not sleeps:
+        raise AnalysisBroken('%s: no sleep found' % rid + '')
+    for sl in sleeps:
+        g = [n for n in (_norm_cmp(fn, cc, s) for cc, s in _guards(fn, sl)) if n]
+        guarded = False
+        for p, a, b in g:
+            ci = fn.imap.get(a) if isinstance(a, str) else None
+            if ci is not None and ci.op == 'call' and ci.callee == 'nsync_time_cmp' and p == 'sgt' and IR.is_int(b) and IR.ival(b) == 0 and list(ci.ops[:2]) == list(sl.ops[1:3]):
+                guarded = True
+        inloop = [h for h, body in loops.items() if sl.block.id in body and any(r.block.id in body for r in rdy if r is not rdy[0] or len(rdy) == 1)]
+        ok = guarded and bool(inloop) and sl.callee == 'nsync_mu_semaphore_p_with_deadline'
+        # the ready times a sleep relies on are read AFTER the registrations: an object can become ready between the entry scan and its
+        # enqueue (which then refuses the record), so a sleep that follows a registration without a fresh poll waits for a post nobody owes
+        # (reaching the header of the loop that polls counts: with zero objects the loop body is skipped, but then nothing was registered)
+        poll_blocks = set()
+        for rc in rdy:
+            inl = [h for h, body in loops.items() if rc.block.id in body and sl.block.id not in body]
+            poll_blocks.add(min(inl, key=lambda h: len(loops[h])) if inl else rc.block.id)
+            poll_blocks.add(rc.block.id)
+        unpolled = next((e for e in enq if paths_avoiding(fn, e, lambda i: i is sl, lambda i: i.block.id in poll_blocks) is not None), None)
+        if ok and unpolled is not None:
+            ok = False
+        rep.instance(rid, 'sleep at %s: guarded by min time > 0: %s, re-polling loop: %s, polled after every registration: %s' % (sl.where(), guarded, bool(inloop), unpolled is None)); rep.oblig(rid, ok)
+        if guarded and inloop and sl.callee == 'nsync_mu_semaphore_p_with_deadline' and unpolled is not None:
+            rep.violate(Violation(rid, sl.where(), 'nsync_wait_n can go from a registration (%s) to the sleep without polling the ready times in between: it sleeps on times read before the objects were registered - an object that became ready meanwhile refused the record, nobody will post the semaphore, and the call blocks although that object is ready' % unpolled.where(),
+                                  site='nsync_wait_n/sleep-without-poll'))
+            continue
+        if not ok:
+            rep.violate(Violation(rid, sl.where(), 'nsync_wait_n sleeps %s' % ('although an object may already be ready or the deadline has passed (the earliest ready time is not checked to be in the future)' if not guarded else
+                                  'without re-polling the objects after the semaphore returns (it keeps sleeping after one became ready, or takes a stale post for readiness)'), site='nsync_wait_n/sleep-guard'))
+
 def run(ctx, rep):
     mod = ctx.mod('C')
     K = ctx.probe
@@ -264,22 +306,7 @@ def run(ctx, rep):
     if not okb:
         rep.violate(Violation('C11.R2', (frees or mallocs or [fn.entry.insts[0]])[0].where(), 'the heap array of waiter records is not freed exactly when it was allocated', site='nsync_wait_n/bookkeeping'))
     # ---- R3
-    sleeps = [i for i in fn.real_insts() if i.op == 'call' and i.callee in ('nsync_mu_semaphore_p_with_deadline', 'nsync_mu_semaphore_p')]
-    if not sleeps:
-        raise AnalysisBroken('C11.R3: no sleep found')
-    for sl in sleeps:
-        g = [n for n in (_norm_cmp(fn, cc, s) for cc, s in _guards(fn, sl)) if n]
-        guarded = False
-        for p, a, b in g:
-            ci = fn.imap.get(a) if isinstance(a, str) else None
-            if ci is not None and ci.op == 'call' and ci.callee == 'nsync_time_cmp' and p == 'sgt' and IR.is_int(b) and IR.ival(b) == 0 and list(ci.ops[:2]) == list(sl.ops[1:3]):
-                guarded = True
-        inloop = [h for h, body in loops.items() if sl.block.id in body and any(r.block.id in body for r in rdy if r is not rdy[0] or len(rdy) == 1)]
-        ok = guarded and bool(inloop) and sl.callee == 'nsync_mu_semaphore_p_with_deadline'
-        rep.instance('C11.R3', 'sleep at %s: guarded by min time > 0: %s, re-polling loop: %s' % (sl.where(), guarded, bool(inloop))); rep.oblig('C11.R3', ok)
-        if not ok:
-            rep.violate(Violation('C11.R3', sl.where(), 'nsync_wait_n sleeps %s' % ('although an object may already be ready or the deadline has passed (the earliest ready time is not checked to be in the future)' if not guarded else
-                                  'without re-polling the objects after the semaphore returns (it keeps sleeping after one became ready, or takes a stale post for readiness)'), site='nsync_wait_n/sleep-guard'))
+    check_waitn_sleep(mod, rep, 'C11.R3')
     # ---- R4
     wakeshape.check_wake_loops(mod, rep, 'C11.R4', only_files=('cv.c',))
     before = len(rep.violations)
